@@ -60,6 +60,7 @@ type threadWorld struct {
 	mutexes  map[*value]*mutexState
 	wgs      map[*value]*wgState
 	execLog  []string
+	written  map[string]Str // os.WriteFile model: last content per file name
 	execPlan []execRule
 	fatal    interface{}
 	killed   bool
@@ -512,7 +513,27 @@ func stubWriteFile(p *path, _ *frame, a []value) value {
 	w := p.ensureWorld()
 	p.schedule()
 	w.execLog = append(w.execLog, "write|"+name.Concrete())
+	if w.written == nil {
+		w.written = map[string]Str{}
+	}
+	if bs, ok := a[1].([]value); ok {
+		c := Str{b: make([]*Term, len(bs))}
+		for i, b := range bs {
+			c.b[i], _ = b.(*Term)
+			if c.b[i] == nil {
+				p.unsupported("os.WriteFile of a non-byte slice")
+			}
+		}
+		w.written[name.Concrete()] = c
+	}
 	return iface{}
+}
+
+// vfWritten(name) (string, bool): the last content given to os.WriteFile for that name.
+func vfWritten(p *path, _ *frame, a []value) value {
+	w := p.ensureWorld()
+	c, ok := w.written[p.argName(a[0])]
+	return tuple{c, p.tc.Bool(ok)}
 }
 
 // vfExecSet(tool, file, succeeds): plans the outcome of the commands of `tool` that mention
